@@ -57,6 +57,19 @@ struct Val {
   }
 };
 
+// raw-bytes inputs are handed over at rotating addresses (offsets 0..7 from an 8-byte aligned buffer): what a sketch
+// does with a key must not depend on where its bytes happen to live
+inline const void* raw_at_rotating_address(const std::string& bytes) {
+  static thread_local std::vector<uint64_t> buf;
+  static thread_local unsigned rot = 0;
+  buf.assign((bytes.size() + 8) / 8 + 2, 0);
+  const unsigned off = rot++ & 7;
+  if (off) count("raw_bytes_inputs_from_unaligned_address");
+  char* p = reinterpret_cast<char*>(buf.data()) + off;
+  if (!bytes.empty()) memcpy(p, bytes.data(), bytes.size());
+  return p;
+}
+
 // call the matching update overload of a sketch
 template<typename S> void apply_update(S& sk, const Val& v) {
   switch (v.kind) {
@@ -71,7 +84,7 @@ template<typename S> void apply_update(S& sk, const Val& v) {
     case V_F64: sk.update(v.d); break;
     case V_F32: sk.update(v.f); break;
     case V_STR: sk.update(v.s); break;
-    case V_BYTES: sk.update(static_cast<const void*>(v.s.data()), v.s.size()); break;
+    case V_BYTES: sk.update(raw_at_rotating_address(v.s), v.s.size()); break;
     default: break;
   }
 }
